@@ -29,6 +29,20 @@ import (
 
 const c15Deadline = 30 * time.Second
 
+// c15Timeouts counts waits that hit their deadline in this process. The first one gets the full
+// generous deadline; once something is evidently stuck later waits are cut short and the driver
+// loops stop generating (the affected cases are reported as anomalies, never as passes).
+var c15Timeouts int
+
+func c15Wait() time.Duration {
+	if c15Timeouts > 0 {
+		return 2 * time.Second
+	}
+	return c15Deadline
+}
+
+func c15GiveUp() bool { return c15Timeouts >= 6 }
+
 // c15Sub is one subscription (filter, QoS).
 type c15Sub struct {
 	F string `json:"f"`
@@ -185,7 +199,7 @@ func c15Goroutines() c15Dump {
 // is parked (read loops in the netpoller, write/resend/store/watch loops in
 // their select).  It reports false on deadline.
 func c15Quiesce(wantConns int) bool {
-	end := time.Now().Add(c15Deadline)
+	end := time.Now().Add(c15Wait())
 	okRuns := 0
 	for {
 		d := c15Goroutines()
@@ -199,6 +213,7 @@ func c15Quiesce(wantConns int) bool {
 		}
 		okRuns = 0
 		if time.Now().After(end) {
+			c15Timeouts++
 			return false
 		}
 		time.Sleep(300 * time.Microsecond)
@@ -206,13 +221,14 @@ func c15Quiesce(wantConns int) bool {
 }
 
 func c15WaitGone() bool {
-	end := time.Now().Add(c15Deadline)
+	end := time.Now().Add(c15Wait())
 	for {
 		d := c15Goroutines()
 		if d.total == 0 {
 			return true
 		}
 		if time.Now().After(end) {
+			c15Timeouts++
 			return false
 		}
 		time.Sleep(300 * time.Microsecond)
@@ -286,13 +302,14 @@ func (c *c15Cli) reader() {
 
 // waitFor blocks until pred (evaluated under c.mu) holds, EOF, or the deadline.
 func (c *c15Cli) waitFor(pred func() bool) string {
-	timer := time.AfterFunc(c15Deadline, func() {
+	wait := c15Wait()
+	timer := time.AfterFunc(wait, func() {
 		c.mu.Lock()
 		c.cond.Broadcast()
 		c.mu.Unlock()
 	})
 	defer timer.Stop()
-	end := time.Now().Add(c15Deadline)
+	end := time.Now().Add(wait)
 	c.mu.Lock()
 	defer c.mu.Unlock()
 	for {
@@ -302,7 +319,8 @@ func (c *c15Cli) waitFor(pred func() bool) string {
 		if c.eof {
 			return "eof"
 		}
-		if time.Now().After(end) {
+		if !time.Now().Before(end) {
+			c15Timeouts++
 			return "timeout"
 		}
 		c.cond.Wait()
